@@ -37,6 +37,8 @@ MaxHist(cfg, b) == BusRec(cfg, b).maxhist          \* 0 = unlimited
 Handlers(cfg) == Range(cfg.handlers)
 Matches(h, ty) == h.pat = "*" \/ h.pat = ty
 Puppets(cfg, b, ty) == {h \in Handlers(cfg) : h.bus = b /\ h.kind # "fwd" /\ Matches(h, ty)}
+\* handlers flagged `late` are not registered at the start: a driver registers them at run time (bus.on(...), line Reg)
+IsLate(h) == "late" \in DOMAIN h /\ h.late
 Fwds(cfg, b, ty) == {h \in Handlers(cfg) : h.bus = b /\ h.kind = "fwd" /\ Matches(h, ty)}
 RECURSIVE ReachFrom(_, _, _)
 ReachFrom(cfg, S, ty) ==
@@ -73,6 +75,8 @@ ObsInit(cfg) ==
     reg    |-> [b \in BusNames(cfg) |-> 0],
     proc   |-> [b \in BusNames(cfg) |-> <<>>],     \* events whose processing on b finished (ProcE), in order
     procB  |-> {},                                 \* <<b,e>> whose processing began
+    lreg   |-> {},                                 \* late handlers registered so far
+    lexp   |-> {},                                 \* <<b,e,h>>: late handler h was registered when bus b began to process e (so it is owed e)
     take   |-> {},                                 \* <<b,e,waiting>>: frames opened by an inline drain, and whether the draining handler was still waiting then
     procX  |-> {},                                 \* <<b,e>> whose processing was abandoned by an exception
     xw     |-> {},                                 \* external waiters
@@ -121,6 +125,9 @@ Anc(o, e) == IF e = 0 \/ e > o.n \/ o.gpar[e] = 0 THEN {} ELSE {o.gpar[e]} \cup 
 
 TimedOutAncestor(o, e) == \E a \in Anc(o, e) : \E i \in DOMAIN o.snap[a].res : o.snap[a].res[i].err = "Timeout"
 CancelledByTimeout(o, e, i) == o.snap[e].res[i].err = "Cancelled:pending" /\ TimedOutAncestor(o, e)
+\* on a parallel_handlers bus the handler's task may exist but not have taken its first step when the ancestor's timeout cancels it:
+\* its result then reads "interrupted" although its code never ran
+InterruptedUnstarted(o, e, i) == o.snap[e].res[i].err = "Cancelled:interrupted" /\ TimedOutAncestor(o, e)
 AcceptedOn(o, b) == Range(o.acc[b])
 AcceptedAnywhere(o) == UNION {Range(o.acc[b]) : b \in DOMAIN o.acc}
 OpenAct(o, a) == CHOOSE x \in o.open : x.act = a
@@ -128,6 +135,10 @@ IsOpen(o, a) == \E x \in o.open : x.act = a
 ResOf(sn, h, b) == {i \in DOMAIN sn.res : sn.res[i].h = h /\ sn.res[i].b = b}
 Bump(o, g) == [o EXCEPT !.cnt[g] = @ + 1]
 AddW(o, ws) == [o EXCEPT !.wit = @ \cup ws]
+\* the scenario handlers of bus b that event e is owed: the ones registered from the start, and the late ones registered by the time b
+\* began to process e (handler selection happens at the head of process_event)
+Expected(cfg, o, b, e) == {h \in Puppets(cfg, b, o.ety[e]) : ~IsLate(h) \/ <<b, e, h.id>> \in o.lexp}
+RegisteredNow(cfg, o, b, ty) == {h \in Puppets(cfg, b, ty) : ~IsLate(h) \/ h.id \in o.lreg}
 
 \* number of ancestors of e (by the library's own parent pointers) on which handler h of bus b has run
 RECURSIVE AncRuns(_, _, _, _, _)
@@ -277,13 +288,13 @@ StepEnter(cfg, o, ln) ==
       earlier == IF pos = 0 THEN {} ELSE {o.acc[ln.b][i] : i \in 1..(pos - 1)}
       w2a == IF first /\ ~jump /\ ln.b \notin o.stopped
              THEN {W("C02.fifo", ln.e, ln.b, ln.h, ln.act, ln.byk) : e2 \in
-                     {z \in earlier : z # ln.e /\ ~InSeq(z, o.started[ln.b]) /\ <<ln.b, z>> \notin o.procB /\ Puppets(cfg, ln.b, o.ety[z]) # {}
+                     {z \in earlier : z # ln.e /\ ~InSeq(z, o.started[ln.b]) /\ <<ln.b, z>> \notin o.procB /\ RegisteredNow(cfg, o, ln.b, o.ety[z]) # {}
                                       /\ ~\E i \in DOMAIN o.snap[z].res : o.snap[z].res[i].b = ln.b /\ CancelledByTimeout(o, z, i)}}
              ELSE {}
       w2n == IF pos = 0 THEN {W("C14.not_accepted", ln.e, ln.b, ln.h, ln.act, "handler entered for an event never accepted on this bus")} ELSE {}
       \* C02 serial: on a serial bus nothing else of this bus is running un-suspended
       w2b == IF IsParallel(cfg, ln.b) THEN {}
-             ELSE {W("C02.serial", ln.e, ln.b, ln.h, y.act, ln.byk) : y \in {z \in o.open : z.b = ln.b /\ z.aw = 0}}
+             ELSE {W("C02.serial", ln.e, ln.b, ln.h, y.act, IF UnderParSiblings(cfg, o, x, y) THEN "parsib" ELSE ln.byk) : y \in {z \in o.open : z.b = ln.b /\ z.aw = 0}}
       \* C05: between await-begin and the child's completion only the child and its descendants run
       takeKind == IF \E tk \in o.take : tk[1] = ln.b /\ tk[2] = ln.e THEN (CHOOSE tk \in o.take : tk[1] = ln.b /\ tk[2] = ln.e)[3] ELSE "work"
       w5 == {W("C05.unrelated", ln.e, ln.b, ln.h, y.aw, IF ln.byk # "in" THEN ln.byk ELSE IF takeKind = "done" THEN "in_after_done"
@@ -363,7 +374,7 @@ StepXAwE(cfg, o, ln) ==
 FinishedOn(cfg, o, b, e) ==
   /\ ~InSeq(e, o.q[b])
   /\ \A i \in DOMAIN o.snap[e].res : o.snap[e].res[i].b = b => Terminal(o.snap[e].res[i].st)
-  /\ \A h \in Puppets(cfg, b, o.ety[e]) : <<b, e, h.id>> \in o.runs \/ \E i \in ResOf(o.snap[e], h.id, b) : Terminal(o.snap[e].res[i].st)
+  /\ \A h \in Expected(cfg, o, b, e) : <<b, e, h.id>> \in o.runs \/ \E i \in ResOf(o.snap[e], h.id, b) : Terminal(o.snap[e].res[i].st)
 StepIdleB(cfg, o, ln) ==
   [o EXCEPT !.restart = IF ln.b \in o.stopped THEN @ \cup {ln.b} ELSE @, !.xw = @ \cup {[k |-> "idle", d |-> ln.d, e |-> 0, b |-> ln.b, t0 |-> ln.t, tmo |-> ln.tmo, before |-> Range(o.acc[ln.b])]}]
 StepIdleE(cfg, o, ln) ==
@@ -412,7 +423,7 @@ StepExpE(cfg, o, ln) ==
       o1 == Bump([o EXCEPT !.exps = (@ \ X) \cup {[x EXCEPT !.done = TRUE]}], "expE")
       m == SelectSeq(x.cands, LAMBDA c : x.inc # "boom" /\ FilterOK(x.inc, c[2]) /\ ~FilterOK(x.exc, c[2]))
       w == IF X = {} THEN {}
-           ELSE (IF o.reg[ln.b] # Cardinality({h \in Handlers(cfg) : h.bus = ln.b}) + Cardinality({y \in o.exps : y.b = ln.b /\ ~y.done /\ y.x # ln.x}) THEN {W("C18.subscription_leak", ln.e, ln.b, "", ln.x, ln.err)} ELSE {})
+           ELSE (IF o.reg[ln.b] # Cardinality({h \in Handlers(cfg) : h.bus = ln.b /\ (~IsLate(h) \/ h.id \in o.lreg)}) + Cardinality({y \in o.exps : y.b = ln.b /\ ~y.done /\ y.x # ln.x}) THEN {W("C18.subscription_leak", ln.e, ln.b, "", ln.x, ln.err)} ELSE {})
              \cup (IF ln.e # 0 /\ (m = <<>> \/ m[1][1] # ln.e) THEN {W("C18.wrong_event", ln.e, ln.b, "", ln.x, "")} ELSE {})
              \cup (IF ln.e = 0 /\ ln.err = "Timeout" /\ m # <<>> /\ x.tmo >= 0 /\ m[1][3] < x.t0 + x.tmo
                    THEN {W("C18.missed", m[1][1], ln.b, "", ln.x, "")} ELSE {})
@@ -433,10 +444,14 @@ StepProcB(cfg, o, ln) ==
                    IF o.snap[aw].sig THEN "done"
                    ELSE IF \E d \in Sub(o, aw) : \E b \in DOMAIN o.acc : InSeq(d, o.acc[b]) /\ (InSeq(d, o.q[b]) \/ ~ProcFinished(o, b, d)) THEN "work"
                    ELSE "nowork"
+      \* is the event taken by an inline drain part of the tree the draining handler is awaiting?
+      related == drainer = {} \/ ln.e \in Sub(o, (CHOOSE z \in drainer : TRUE).aw)
       o1 == [o EXCEPT !.procB = @ \cup {<<ln.b, ln.e>>},
-                      !.take = IF ln.ok = "in" THEN {tk \in @ : ~(tk[1] = ln.b /\ tk[2] = ln.e)} \cup {<<ln.b, ln.e, kind>>} ELSE @,
+                      !.lexp = @ \cup {<<ln.b, ln.e, h.id>> : h \in {g \in Puppets(cfg, ln.b, o.ety[ln.e]) : IsLate(g) /\ g.id \in o.lreg}},
+                      !.take = IF ln.ok = "in" THEN {tk \in @ : ~(tk[1] = ln.b /\ tk[2] = ln.e)} \cup {<<ln.b, ln.e, kind, related>>} ELSE @,
                       !.exps = {IF ~x.done /\ x.b = ln.b /\ x.ty = o.ety[ln.e] THEN [x EXCEPT !.cands = Append(@, <<ln.e, n, ln.t>>)] ELSE x : x \in @}]
   IN o1
+StepReg(cfg, o, ln) == [o EXCEPT !.lreg = @ \cup {ln.h}]
 StepProcE(cfg, o, ln) == Bump([o EXCEPT !.proc[ln.b] = Append(@, ln.e)], "complete")
 StepProcX(cfg, o, ln) == [o EXCEPT !.procX = @ \cup {<<ln.b, ln.e, ln.exc>>}]
 
@@ -501,8 +516,8 @@ StepEnd(cfg, o, ln) ==
             \cup {W("C10.never_cancelled", x.e, x.b, x.h, x.act, "") : x \in {y \in o.open : y.dl >= 0 /\ y.dl < ln.t}}
       \* ---- C01: every accepted event was delivered to every matching scenario handler of the bus
       w1 == UNION { {W("C01.missing", e, b, h.id, 0, "") :
-                       h \in {g \in Puppets(cfg, b, o.ety[e]) : <<b, e, g.id>> \notin o.runs
-                               /\ ~\E i \in ResOf(o.snap[e], g.id, b) : CancelledByTimeout(o, e, i)}}
+                       h \in {g \in Expected(cfg, o, b, e) : <<b, e, g.id>> \notin o.runs
+                               /\ ~\E i \in ResOf(o.snap[e], g.id, b) : CancelledByTimeout(o, e, i) \/ InterruptedUnstarted(o, e, i)}}
                   : <<b, e>> \in {p \in live \X (1..o.n) : InSeq(p[2], o.acc[p[1]])} }
       \* ---- C14: accepted events are processed by the bus
       w14 == {W("C14.never_processed", p[2], p[1], "", 0, IF InSeq(p[2], o.q[p[1]]) THEN "still_queued" ELSE "vanished")
@@ -557,6 +572,7 @@ StepCore(cfg, o, o0, ln) ==
               [] ln.a = "XAwE"     -> StepXAwE(cfg, o0, ln)
               [] ln.a = "IdleB"    -> StepIdleB(cfg, o0, ln)
               [] ln.a = "IdleE"    -> StepIdleE(cfg, o0, ln)
+              [] ln.a = "Reg"      -> StepReg(cfg, o0, ln)
               [] ln.a = "StopB"    -> StepStopB(cfg, o0, ln)
               [] ln.a = "StopE"    -> StepStopE(cfg, o0, ln)
               [] ln.a = "CancelRL" -> StepCancelRL(cfg, o0, ln)
